@@ -59,7 +59,11 @@ pub mod properties;
 mod test_helpers;
 
 pub use kern::{create_gather_ir_kerning_work, create_kern_segment_work, create_kerns_work};
+#[cfg(fontc_verif)]
+pub use kern::verif_kern;
 pub use marks::create_mark_work;
+#[cfg(fontc_verif)]
+pub use marks::verif_build_marks;
 
 const DFLT_SCRIPT: Tag = Tag::new(b"DFLT");
 const DFLT_LANG: Tag = Tag::new(b"dflt");
